@@ -661,7 +661,11 @@ func ruleR7Unary(c *Ctx, prop string) {
 			if fn != nil {
 				tt = truthTable(fn, 1)
 			}
-			c.decide(tt == "10", "R7", key, site, "Not = inputs[0].Apply(x -> !x)", "element function has truth table "+tt+" (inputs 0,1), Not requires 10")
+			whyNot := "element function has truth table " + tt + " (inputs 0,1), Not requires 10"
+			if fn == nil {
+				whyNot = "Not no longer negates through inputs[0].Apply(element function) (which also handles rank-0 tensors): the element function cannot be located and evaluated"
+			}
+			c.decide(tt == "10", "R7", key, site, "Not = inputs[0].Apply(x -> !x)", whyNot)
 		case name == "PRelu":
 			c.checkPRelu(oi, key)
 		}
